@@ -32,7 +32,17 @@ def run_one(args):
 
 def failures(pid, inst, r):
     bad = []
+    huge = max(inst["parameters"]["costs"].get(k) or 0 for k in ("staff", "serviceTrip", "deadHeadTrip", "idle")) >= 10 ** 9
+    dbg = r["outcomes"].get("debug", ("OK", ""))
+    f3 = huge and dbg[0] == "PANIC" and "rs-graph" in dbg[1] and "overflow" in dbg[1]
     for build, (st, note) in r["outcomes"].items():
+        if st != "OK" and f3 and build == "release":
+            # the same arithmetic wraps around silently in the release build; whatever follows (no answer, time limit) is
+            # the same finding F3 on the same instance
+            bad.append(("flow-solver-internal-overflow",
+                        "%s build: cost rates >= 10^9, the i64 guard of the flow network passes (model: %s) but "
+                        "rs_graph's network simplex panics %s [release outcome: %s]" % (build, r.get("guard"), dbg[1], st)))
+            continue
         if st != "OK":
             if st == "PANIC" and r.get("guard") == "PANIC" and "min_cost_flow_solver.rs" in note:
                 # the instance class of known finding F2: the MODEL's i64 guard fails for this instance, and the code
